@@ -2,6 +2,10 @@
 //! generation, monitors, explorers.  See /verif/docs/HARNESS_SPEC.md and
 //! /verif/docs/HARNESS_NOTES.md.
 
+// Parts of the executor / scheduler API exist for explorers and tools that are still to be
+// written (see HARNESS_NOTES.md); do not warn about the ones the current binary does not use.
+#![allow(dead_code)]
+
 mod agents;
 mod containers;
 mod exec;
@@ -103,10 +107,77 @@ fn main() {
                 }
             }
         }
+        "selftest" => selftest(),
         "families" => {
             println!("random: {}", explore::FAMILY_NAMES.join(" "));
             println!("dfs:    {}", explore::DFS_FAMILY_NAMES.join(" "));
         }
         _ => usage(),
     }
+}
+
+/// Checks of the scheduler machinery that no library behaviour exercises reliably.
+fn selftest() {
+    use sched::{Outcome, Report, Step};
+    let run = sched::RunShared::new();
+    // 1. a second panic while unwinding must not abort the process
+    struct Bomb;
+    impl Drop for Bomb {
+        fn drop(&mut self) {
+            panic!("second panic (in a destructor)");
+        }
+    }
+    let (_cx, step) = sched::spawn_agent(
+        &run,
+        0,
+        Box::new(|_| {
+            let _b = Bomb;
+            panic!("first panic");
+        }),
+    );
+    match step {
+        Step::Report(Report::DoublePanic(m)) => println!("ok   double panic intercepted: {}", m),
+        other => {
+            println!("FAIL double panic: {:?}", other);
+            std::process::exit(1);
+        }
+    }
+    // 2. plain panic, user panic
+    let (_cx, step) = sched::spawn_agent(&run, 1, Box::new(|_| panic!("plain {}", 42)));
+    match step {
+        Step::Report(Report::Finished(Outcome::Panic(m))) if m.starts_with("plain 42 @ main.rs:") => println!("ok   panic captured: {}", m),
+        other => {
+            println!("FAIL panic capture: {:?}", other);
+            std::process::exit(1);
+        }
+    }
+    let (_cx, step) = sched::spawn_agent(&run, 2, Box::new(|_| std::panic::panic_any(sched::UserPanic)));
+    match step {
+        Step::Report(Report::Finished(Outcome::UserPanic)) => println!("ok   user panic classified"),
+        other => {
+            println!("FAIL user panic: {:?}", other);
+            std::process::exit(1);
+        }
+    }
+    // 3. watchdog
+    let t0 = std::time::Instant::now();
+    let (_cx, step) = sched::spawn_agent(
+        &run,
+        3,
+        Box::new(|_| {
+            std::thread::sleep(sched::WATCHDOG + std::time::Duration::from_millis(500));
+            Outcome::Unit
+        }),
+    );
+    match step {
+        Step::Timeout => println!("ok   watchdog fired after {:?}", t0.elapsed()),
+        other => {
+            println!("FAIL watchdog: {:?}", other);
+            std::process::exit(1);
+        }
+    }
+    // 4. hooks are no-ops on threads without agent context
+    let ex = exec::Executor::new(Backend::H, false);
+    drop(ex);
+    println!("ok   selftest done (leaked threads: {})", sched::LEAKED_THREADS.load(std::sync::atomic::Ordering::Relaxed));
 }
